@@ -4,6 +4,7 @@ CONSTANTS
   ConRecs = {}
   MaxCons = 0
   Methods = {}
+  OptSets = {}
   FaultExcs = {}
   OnlySuccess = FALSE
   EditInvalidates = TRUE
